@@ -397,7 +397,7 @@ theorem opSteps_slashExit (cfg : Config) (S0 : State) (p Bm C : Nat) (K : P0Cons
     fork := fun _ _ _ h => by rw [h.slash.fork]; exact hF
     header := fun k ctx st hi => p0_header cfg S0 p Bm C block k ctx st hi
     payload := fun ctx payload hpl => by rw [hb.payload] at hpl; cases hpl
-    withdrawals := fun ctx payload hpl => by rw [hb.payload] at hpl; cases hpl
+    withdrawals := fun _ ctx payload hpl => by rw [hb.payload] at hpl; cases hpl
     randao := fun ctx => p0_randao cfg S0 p Bm C K block ctx
     eth1 := fun ctx => p0_eth1 cfg S0 p Bm C K block ctx
     proposerSlashing := fun ctx => p0_proposerSlashing cfg S0 p Bm C K _ ctx
